@@ -211,6 +211,20 @@ func runC06(c *Ctx, prop string) {
 		if appends == 0 {
 			bad = append(bad, "no area construction found")
 		}
+		// one source of annotations per field: the trailing comment group. A second source (the doc
+		// comment above the field) gives one field two areas with the same offsets; the second is applied
+		// to offsets the first has already shifted, is skipped in this run and injected by the next one
+		for _, b := range parse.Blocks {
+			for _, ins := range b.Instrs {
+				fa, ok := ins.(*ssa.FieldAddr)
+				if !ok || !isNamed(derefType(fa.X.Type()), "go/ast", "Field") {
+					continue
+				}
+				if nm := fieldAddrName(fa); nm == "Doc" {
+					bad = append(bad, "annotations are also read from the field's doc comment (Field.Doc) at "+p.Pos(fa.Pos())+": a field annotated above and behind yields two areas with the same offsets, the second one is applied to stale offsets")
+				}
+			}
+		}
 		c.Sites++
 		c.Check(len(bad) == 0, "C07-AREA", fnName(parse), "area-iff-tag", parse.Pos(), "areas only for matched, non-empty @tag comments", strings.Join(bad, "; "))
 	}
@@ -250,7 +264,7 @@ func runC06(c *Ctx, prop string) {
 				bad = append(bad, "the merged tag list is not the one rendered")
 			} else {
 				okLit := false
-				for _, ra := range callsIn(inject, "(*regexp.Regexp).ReplaceAll") {
+				for _, ra := range replaceCalls(inject) {
 					repl := ra.Call.Args[2]
 					if cv, ok := repl.(*ssa.Convert); ok {
 						repl = cv.X
@@ -312,7 +326,7 @@ func runC06(c *Ctx, prop string) {
 			}
 		}
 		// the replacement is applied with rInject.ReplaceAll on the copied expression only
-		ra := callsIn(inject, "(*regexp.Regexp).ReplaceAll")
+		ra := replaceCalls(inject)
 		okRA := len(ra) == 1
 		if okRA {
 			if g, ok := ra[0].Call.Args[0].(*ssa.UnOp); !ok {
@@ -322,7 +336,16 @@ func runC06(c *Ctx, prop string) {
 			}
 		}
 		c.Sites++
-		c.Check(okRA, prop+"-TAIL", fnName(inject), "replace-all", inject.Pos(), "the literal is replaced wholesale by rInject.ReplaceAll", "the new literal is not installed by one rInject.ReplaceAll on the field expression (appending instead of replacing breaks idempotence)")
+		c.Check(okRA, prop+"-TAIL", fnName(inject), "replace-all", inject.Pos(), "the literal is replaced wholesale by one rInject replace call", "the new literal is not installed by one rInject.ReplaceAll[Literal] on the field expression (appending instead of replacing breaks idempotence)")
+		// the replacement is the merged tag text itself: regexp.ReplaceAll treats its argument as a
+		// template ($name, ${name}, $1 are expanded — to nothing, the pattern has no groups), so a '$'
+		// in any tag value, kept or injected, would be eaten; ReplaceAllLiteral (or a template with
+		// every '$' doubled) installs the text as it is
+		if okRA {
+			c.Sites++
+			nm := calleeName(&ra[0].Call)
+			c.Check(nm == "(*regexp.Regexp).ReplaceAllLiteral", prop+"-TAIL", fnName(inject), "replace-literal", ra[0].Pos(), "the merged tag text is installed literally (ReplaceAllLiteral)", "the merged tag text is given to "+nm+" as a replacement TEMPLATE: '$name' / '${name}' / '$1' inside a tag value (json:\"$ref\", note:\"US$price\") is expanded to nothing, so a kept key loses part of its value and an injected value is not exactly v")
+		}
 	}
 	// ---------------- MERGE
 	runMerge(c, prop)
@@ -373,7 +396,7 @@ func runC06(c *Ctx, prop string) {
 			}
 			// middle = ReplaceAll(re, expr, ...) where expr = make + copy(expr, contents[A2:B2])
 			var A2, B2 ssa.Value
-			if ra, ok := mid.(*ssa.Call); ok && calleeName(&ra.Call) == "(*regexp.Regexp).ReplaceAll" {
+			if ra, ok := mid.(*ssa.Call); ok && (calleeName(&ra.Call) == "(*regexp.Regexp).ReplaceAll" || calleeName(&ra.Call) == "(*regexp.Regexp).ReplaceAllLiteral") {
 				expr := ra.Call.Args[1]
 				for _, r := range refs(expr) {
 					if cp, ok := r.(*ssa.Call); ok && calleeName(&cp.Call) == "builtin.copy" && cp.Call.Args[0] == expr {
@@ -502,6 +525,86 @@ func runC06(c *Ctx, prop string) {
 		c.Check(len(bad) == 0, "C06-SPAN", fnName(parse), "span", parse.Pos(), "Start = field.Pos(), End = field.End()", strings.Join(bad, "; "))
 	}
 	runFreshFileSet(c, "C06-SPAN")
+	runAllFields(c, "C06-SPAN")
+}
+
+// runAllFields: every declaration of the file and every field of every struct is looked at. The
+// loops of ParseFile that range over the file's declarations and over a struct's field list leave
+// only through their headers (no break / return from inside): an exit from the middle leaves the
+// rest of the struct, or of the file, without its injected tags (and for a later run to pick up).
+func runAllFields(c *Ctx, rule string) {
+	p := c.P
+	parse := p.Func("file", "ParseFile")
+	if parse == nil {
+		return
+	}
+	n := 0
+	var bad []string
+	for _, l := range naturalLoops(parse) {
+		what := ""
+		for _, ins := range l.Header.Instrs {
+			bo, ok := ins.(*ssa.BinOp)
+			if !ok {
+				continue
+			}
+			ln, ok := bo.Y.(*ssa.Call)
+			if !ok || calleeName(&ln.Call) != "builtin.len" {
+				continue
+			}
+			sl, ok := ln.Call.Args[0].Type().Underlying().(*types.Slice)
+			if !ok {
+				continue
+			}
+			switch {
+			case strings.HasSuffix(sl.Elem().String(), "go/ast.Field"):
+				what = "the struct's fields"
+			case strings.HasSuffix(sl.Elem().String(), "go/ast.Decl"):
+				what = "the file's declarations"
+			}
+		}
+		if what == "" {
+			// the length may have been taken before the loop
+			for b := range l.Body {
+				for _, ins := range b.Instrs {
+					ia, ok := ins.(*ssa.IndexAddr)
+					if !ok {
+						continue
+					}
+					if sl, ok := ia.X.Type().Underlying().(*types.Slice); ok {
+						switch {
+						case strings.HasSuffix(sl.Elem().String(), "go/ast.Field") && isLoopIndex(ia.Index, l):
+							what = "the struct's fields"
+						case strings.HasSuffix(sl.Elem().String(), "go/ast.Decl") && isLoopIndex(ia.Index, l):
+							what = "the file's declarations"
+						}
+					}
+				}
+			}
+		}
+		if what == "" {
+			continue
+		}
+		n++
+		c.Sites++
+		for _, ee := range l.exitEdges() {
+			if ee[0] != l.Header {
+				bad = append(bad, "the loop over "+what+" is left from inside an iteration at "+p.Pos(instrPos(ee[0].Instrs[len(ee[0].Instrs)-1]))+": the remaining "+strings.TrimPrefix(what, "the ")+" are not processed")
+			}
+		}
+	}
+	if n < 2 {
+		bad = append(bad, fmt.Sprintf("expected the declaration loop and the field loop in ParseFile, found %d", n))
+	}
+	c.Check(len(bad) == 0, rule, fnName(parse), "all-fields", parse.Pos(), "declaration and field loops leave only through their headers", strings.Join(uniqStrings(bad), "; "))
+}
+
+// isLoopIndex: v is the loop's induction variable (header φ, or φ+1 of a range loop).
+func isLoopIndex(v ssa.Value, l *loopInfo) bool {
+	if bo, ok := v.(*ssa.BinOp); ok && bo.Op == token.ADD {
+		v = bo.X
+	}
+	ph, ok := v.(*ssa.Phi)
+	return ok && ph.Block() == l.Header
 }
 
 // runFreshFileSet: areas store token.Pos values as byte offsets (+1) into the file. That is
@@ -673,4 +776,19 @@ func builtFromAppendsOnly(v ssa.Value, seen map[ssa.Value]bool) bool {
 		}
 	}
 	return false
+}
+
+
+// replaceCalls: the calls of (*regexp.Regexp).ReplaceAll / ReplaceAllLiteral in fn.
+func replaceCalls(fn *ssa.Function) []*ssa.Call {
+	out := callsIn(fn, "(*regexp.Regexp).ReplaceAll")
+	return append(out, callsIn(fn, "(*regexp.Regexp).ReplaceAllLiteral")...)
+}
+
+
+func derefType(t types.Type) types.Type {
+	if pt, ok := t.Underlying().(*types.Pointer); ok {
+		return pt.Elem()
+	}
+	return t
 }
